@@ -96,11 +96,11 @@ Proof.
   rewrite d_bin_req by assumption. cbn [bind].
   rewrite <- (app_nil_r (v_s v)) at 1. rewrite d_bin_req by assumption. cbn [bind is_nil negb].
   f_equal. unfold encode_msgp, raw_count, prop_count, enc_bin, enc_u. rewrite !has_hb.
-  replace (negb (hb (v_dig v) || hb (v_encdig v) || hb (v_oper v) || hb (v_oprop v)))
-    with (b2n (hb (v_dig v)) + b2n (hb (v_encdig v)) + b2n (hb (v_oper v)) + b2n (hb (v_oprop v)) =? 0)
+  replace (b2n (hb (v_dig v)) + b2n (hb (v_encdig v)) + b2n (hb (v_oper v)) + b2n (hb (v_oprop v)) =? 0)
+    with (negb (hb (v_dig v) || hb (v_encdig v) || hb (v_oper v) || hb (v_oprop v)))
     by (destruct (hb (v_dig v)), (hb (v_encdig v)), (hb (v_oper v)), (hb (v_oprop v)); reflexivity).
   unfold zeros at 2. rewrite repeat_length.
-  destruct (b2n (hb (v_dig v)) + b2n (hb (v_encdig v)) + b2n (hb (v_oper v)) + b2n (hb (v_oprop v)) =? 0);
+  destruct (hb (v_dig v) || hb (v_encdig v) || hb (v_oper v) || hb (v_oprop v));
     cbn [negb app]; rewrite <- ?app_assoc; cbn [app]; reflexivity.
 Qed.
 
